@@ -137,9 +137,12 @@ def check(run, mod, args):
 			regfn(eng.registry)
 			eng.specns = dict(base_specns)
 			eng.specns.update(getattr(regfn, 'specns', {}))      # e.g. a spec function kept opaque for this target
+			eng.lib = dict(lib)
+			eng.lib.update(getattr(regfn, 'lib', {}))            # a target-specific library model
 		else:
 			eng.registry = reg
 			eng.specns = base_specns
+			eng.lib = lib
 		try:
 			eng.verify_function(qual, inst, override)
 		except (Unsupported, CyFrontError, PathLimit) as e:
